@@ -16,6 +16,9 @@
 //   - in a part of the histories re-activates the chains in mid-history (retried deployment of a
 //     contract that is not newer, take-over by a newer compass, re-announcement - activate.go), so
 //     that every stage of a batch's life and every replay also happens in each activation state;
+//   - starts a part of the two-chain histories after one deployment round that gave all chains the
+//     same compass unique id, and replays genuine signatures also under chain reference ids that
+//     are not the batch's (sibling chain, unknown chain - crossref.go);
 //   - submits truly bad signatures (validator key over a fabricated batch) as a control: they must
 //     jail, otherwise the "never jailed" verdicts would be vacuous (INCONCLUSIVE);
 //   - at every prune (h%50==0, age > 300) decides from the recorded evidence sets (whose
